@@ -195,6 +195,65 @@ def r3b_after_cleaning(ctx, sw, rid="C13.R3b", why="the model keeps that cohort'
         ctx.ok(rid, f, f.node, "every state write of the wrapper goes to a clone of the model's state", construct="writes after the cleaning")
 
 
+_SELF_MUT_CACHE = {}
+
+
+def _param_mut(ctx, cg):
+    if not hasattr(ctx, "_c13_mut"):
+        from ..effects import SharedDefaults
+        ctx._c13_mut = SharedDefaults(ctx.ix).param_mutations(cg)
+    return ctx._c13_mut
+
+
+def _self_mutating_methods(ix, mod, cls, cg=None, mut=None):
+    """names of the methods of `cls` that modify the object they are called on: a store through `self` (attribute, item of an attribute), a
+    mutator call on a container reached from `self`, or a call of another such method on `self` (fixpoint).  `__init__` is not a method one
+    calls on an existing object."""
+    key = (ix.serial, mod, cls)
+    if key in _SELF_MUT_CACHE:
+        return _SELF_MUT_CACHE[key]
+    node = ix.classes.get((mod, cls))
+    out = set()
+    if node is not None:
+        meths = {b.name: b for b in node.body if isinstance(b, ast.FunctionDef) and b.name != "__init__"}
+        calls = {}
+        for name, fn in meths.items():
+            direct = False
+            calls[name] = set()
+            for n_ in ast.walk(fn):
+                if isinstance(n_, ast.stmt):
+                    for t in store_targets(n_):
+                        if isinstance(t, (ast.Attribute, ast.Subscript)) and root_name(t) == "self":
+                            direct = True
+                if isinstance(n_, ast.Call) and U(n_.func) in ("setattr", "object.__setattr__") and n_.args and U(n_.args[0]) == "self":
+                    direct = True
+                if isinstance(n_, ast.Call) and isinstance(n_.func, ast.Attribute):
+                    if isinstance(n_.func.value, ast.Name) and n_.func.value.id == "self":
+                        calls[name].add(n_.func.attr)
+                    elif root_name(n_.func.value) == "self" and n_.func.attr in ("update", "pop", "clear", "setdefault", "append", "extend", "insert", "remove", "sort", "popitem"):
+                        direct = True
+            # something reached from `self` handed to a function that writes through that parameter
+            fk = ix.funcs.get((mod, f"{cls}.{name}"))
+            if fk is not None and cg is not None and mut is not None:
+                from ..effects import StateWrites
+                for site in cg.sites.get(fk.key, []):
+                    for tgt in site.targets:
+                        for q, arg in StateWrites._bind_args(site.node, tgt):
+                            if isinstance(arg, (ast.Attribute, ast.Subscript)) and root_name(arg) == "self" and q in mut.get(tgt.key, ()):
+                                direct = True
+            if direct:
+                out.add(name)
+        changed = True
+        while changed:
+            changed = False
+            for name in meths:
+                if name not in out and calls[name] & out:
+                    out.add(name)
+                    changed = True
+    _SELF_MUT_CACHE[key] = out
+    return out
+
+
 INPUT_TYPES = {"AlgorithmSettings": "settings", "Dataset": "dataset", "Data": "data", "OutputsSettings": "output settings", "DataFrame": "table"}
 
 
@@ -234,7 +293,7 @@ def r4_inputs(ctx, cg):
                     m = c.func.attr
                     inplace = any(k.arg == "inplace" and U(k.value) == "True" for k in c.keywords)
                     if inplace or (params[r] in ("Dataset",) and m == "move_to_device" and not _in_restoring_try(f, c)) or \
-                            (params[r] == "AlgorithmSettings" and m in ("set_logs", "_manage_kwargs", "check_consistency")) or \
+                            (params[r] == "AlgorithmSettings" and (m in ("set_logs", "_manage_kwargs", "check_consistency") or m in _self_mutating_methods(ix, "leaspy.algo.settings", "AlgorithmSettings", cg, _param_mut(ctx, cg)))) or \
                             (m in ("update", "pop", "clear", "setdefault", "append", "extend", "insert", "remove", "sort") and isinstance(c.func.value, (ast.Attribute, ast.Subscript))
                              and params[r] in ("AlgorithmSettings",)):
                         n += 1
